@@ -25,6 +25,9 @@ type Op struct {
 	Qx  int    `json:"qx,omitempty"`  // query point in half units (nn, knn)
 	Qy  int    `json:"qy,omitempty"`
 	Kn  int    `json:"kn,omitempty"` // k for knn
+	// Far k (nn, knn): the query point is multiplied by 2^k, k up to 1015: every stored object is far away, beyond 2^512
+	// too far for the square of its distance to be a float64
+	Far int `json:"far,omitempty"`
 	// F: fractional offsets added to x, y, w, h of Box (and to the query point) in float histories
 	F [4]float64 `json:"f,omitempty"`
 	// Empty: the inserted object is a *Bounds without any point (geom.NewBounds()): it is stored and counted, can be
@@ -185,6 +188,9 @@ func GenHistory(t *rapid.T, queries string) History {
 				op.K = rapid.SampledFrom([]string{"nn", "knn", "knn"}).Draw(t, "nnkind")
 				op.Qx, op.Qy = rapid.IntRange(-4, 2*grid+8).Draw(t, "qx"), rapid.IntRange(-4, 2*grid+8).Draw(t, "qy")
 				op.Kn = rapid.IntRange(1, 12).Draw(t, "k")
+				if rapid.IntRange(0, 9).Draw(t, "farq") == 0 {
+					op.Far = rapid.SampledFrom([]int{300, 500, 511, 512, 513, 600, 900, 1015}).Draw(t, "far")
+				}
 			}
 		}
 		if h.Float && (op.K == "ins" || op.K == "search" || op.K == "nn" || op.K == "knn") {
